@@ -172,6 +172,7 @@ pub fn work_main(a: &WorkArgs) {
         let r = run(&sc, Schedule::Seeded, false);
         out.scenarios += 1;
         *out.modes.entry(sc.mode.clone()).or_insert(0) += 1;
+        *out.modes.entry(if sc.pct_depth > 0 { "schedule:pct".to_string() } else { "schedule:random".to_string() }).or_insert(0) += 1;
         out.threads_hist[sc.threads.len().min(7)] += 1;
         let ran_threads = r.stats.thread_spawn_cold;
         if ran_threads >= 2 {
@@ -721,6 +722,7 @@ fn world_file(g: &GenCtx, tables: &[Vec<u32>; 4], verif_seed: u64, w: u64) -> (R
         probe: false,
         mode: format!("world_prologue:{}", variant),
         sched_salt: 0,
+        pct_depth: 0,
     };
     for k in 0..prefix {
         let table = PERMS[perm_ix][k];
